@@ -87,7 +87,9 @@ REFERRING = ["groupby-selected", "orderby-selected", "groupby-unselected", "orde
              # only the second operand of a set operation defines the alias: the result's column names come from the first
              "setop-orderby-later-branch-unselected",
              # a grouped query as operand of a set operation that is rendered with str() (no context given by the caller)
-             "groupby-selected-setop-branch"]
+             "groupby-selected-setop-branch",
+             # the select list defines the alias in another letter case: quoted names are case sensitive, so that is another name
+             "orderby-casevariant-defined", "groupby-casevariant-defined"]
 
 
 def cases(tier, seed, shard, nshards):
@@ -114,6 +116,12 @@ def cases(tier, seed, shard, nshards):
                     if tier == "quick" and (hash_stable(e["label"] + lab) + slot) % 2:
                         continue
                     yield {"k": "operand", "d": d, "outer": e["label"], "slot": slot, "label": lab, "mode": "param" if (k // nshards) % 3 == 0 else "inline"}
+    for d in DIALECT_CLASSES:
+        for form in FACTORY_FORMS:
+            for maker in ("Q.Tables", "make_tables", "Tables"):
+                k += 1
+                if k % nshards == shard:
+                    yield {"k": "factory", "d": d, "form": form, "maker": maker}
     for d in DIALECT_CLASSES:
         for src in ("table", "subquery", "setop", "table-join", "subquery-join", "temporal", "temporal-join", "temporal-portion", "temporal-aliased-after",
                     "temporal-portion-update", "setop-aliased-branches", "setop-aliased-branches-join"):
@@ -207,6 +215,10 @@ def build_position(case, aliased):
         return Q.from_(t).select(x, y).groupby(x).union(Q.from_(t).select(y, y))
     if pos == "setop-orderby-later-branch-unselected":
         return Q.from_(t).select(y).union(Q.from_(t).select(x)).orderby(x)
+    if pos in ("orderby-casevariant-defined", "groupby-casevariant-defined"):
+        sel = subject(case["label"], t, Q).as_(AL.swapcase())
+        q = Q.from_(t).select(sel, y)
+        return q.orderby(x) if pos.startswith("orderby") else q.groupby(x)
     if pos == "orderby-after-star-unselected":
         return Q.from_(t).select(x).select("*").orderby(x)
     raise ValueError(pos)
@@ -435,7 +447,57 @@ def run_source(case, mon):
     mon.nontrivial(case)
 
 
+FACTORY_FORMS = {
+    # (arguments of Tables(), index -> expected alias)
+    "alias-first": ([("orders", AL), "customers", "items"], {0: AL, 1: None, 2: None}),
+    "alias-middle": (["customers", ("orders", AL), "items"], {0: None, 1: AL, 2: None}),
+    "alias-last": (["customers", "items", ("orders", AL)], {0: None, 1: None, 2: AL}),
+    "two-aliases": ([("orders", AL), "customers", ("items", "i2")], {0: AL, 1: None, 2: "i2"}),
+    "all-plain": (["orders", "customers", "items"], {0: None, 1: None, 2: None}),
+}
+
+
+def run_factory(case, mon):
+    """Tables made in one call of a table factory, some with an alias and some without: an alias is emitted after its own table only."""
+    r = R()
+    d = case["d"]
+    Q = r[d]
+    fam = DIALECT_OF[d] if d != "Query" else "generic"
+    args, want = FACTORY_FORMS[case["form"]]
+    maker = {"Q.Tables": lambda: Q.Tables(*args), "make_tables": lambda: r["make_tables"](*args), "Tables": lambda: r["Tables"](*args) if "Tables" in r else r["make_tables"](*args)}[case["maker"]]
+    try:
+        tabs_ = maker()
+        got = {i: getattr(t_, "alias", None) for i, t_ in enumerate(tabs_)}
+        a, b, c = tabs_
+        stmts = {"select": Q.from_(a).join(b).on(a.id == b.id).join(c).on(b.id == c.id).select(a.x, b.y, c.z),
+                 "insert-select": Q.into(b).from_(a).select(a.x)}
+        sqls = {k_: sql_of(v_, d) for k_, v_ in stmts.items()}
+    except Exception as e:
+        mon.violation("factory:raises:%s:%s" % (case["maker"], type(e).__name__), "%s(%r) raised %r" % (case["maker"], args, e))
+        return
+    mon.count("factory_calls")
+    if got != want:
+        mon.violation("factory:alias-on-the-wrong-table:%s:%s" % (case["maker"], case["form"]), "%s(%r) gives the aliases %r, expected %r" % (case["maker"], args, got, want))
+        return
+    for name_, sql in sqls.items():
+        toks = tokenize(sql, d)
+        for i, t_ in enumerate(toks):
+            if t_.kind == "IDENT" and t_.value in (AL, "i2") and not (i + 1 < len(toks) and toks[i + 1].text == "."):
+                owner = {v_: args[k_][0] for k_, v_ in want.items() if v_}[t_.value]
+                prev = toks[i - 1]
+                if prev.kind == "WORD" and prev.value == "AS" and i >= 2:
+                    prev = toks[i - 2]
+                mon.count("factory_alias_definitions")
+                if not (prev.kind == "IDENT" and prev.value == owner):
+                    mon.violation("factory:alias-emitted-after-another-source:%s:%s" % (case["maker"], fam), "the alias %r of table %r follows %r in %r" % (
+                        t_.value, owner, prev.text, sql[:240]))
+                    return
+    mon.nontrivial(case)
+
+
 def run_case(case, mon):
+    if case.get("k") == "factory":
+        return run_factory(case, mon)
     {"position": run_position, "operand": run_operand, "source": run_source}[case["k"]](case, mon)
 
 
